@@ -292,6 +292,7 @@ func ruleLookup(c *Ctx, a *cacheAnchors, want map[string]bool) {
 					}
 					if l.Pol && y.Key() == E.Key() && isClock(x) { // now < E
 						fresh = true
+						report("expiry-exact", fmt.Sprintf("state %s is served only while now < expiredAt: the entry lapses when the clock reaches its expiry second, so a period of N whole seconds lasts between N-1 and N seconds (requests in the configured period's last second find the key lapsed and queue behind a probe) on %s", a.statusName(cls), where))
 					}
 				}
 				if !fresh {
@@ -308,7 +309,7 @@ func ruleLookup(c *Ctx, a *cacheAnchors, want map[string]bool) {
 		}
 	}
 	rules := []string{"lookup-shape", "state-determined", "invariant-expiry", "no-exit-unknown", "fetching-only-from-unknown",
-		"load-only-when-unknown", "load-on-first-lookup", "invariant-waiters", "no-waiter-dropped", "registration", "returned-status", "hit-data", "expiry-applied"}
+		"load-only-when-unknown", "load-on-first-lookup", "invariant-waiters", "no-waiter-dropped", "registration", "returned-status", "hit-data", "expiry-applied", "expiry-exact"}
 	if seen["registered"] == 0 || seen["became-fetcher"] == 0 || seen["hit"] == 0 {
 		c.undecided("lookup-transitions", name, pos, fmt.Sprintf("expected paths not found (registered=%d became-fetcher=%d hit=%d): idiom not recognised", seen["registered"], seen["became-fetcher"], seen["hit"]))
 		return
